@@ -359,6 +359,12 @@ func DBigSize(r io.Reader, val interface{}, buf *[8]byte, l uint64) error {
 		if err != nil {
 			return err
 		}
+
+		// A value that doesn't fit into the target type must not be
+		// truncated silently.
+		if uint64(uint32(v)) != v {
+			return NewTypeForDecodingErr(val, "BigSize", l, 5)
+		}
 		*i = uint32(v)
 		return nil
 	}
@@ -373,6 +379,33 @@ func DBigSize(r io.Reader, val interface{}, buf *[8]byte, l uint64) error {
 	}
 
 	return NewTypeForDecodingErr(val, "BigSize", l, 8)
+}
+
+// dBigSizeRecord is the Decoder of a record whose value is a single BigSize.
+// DBigSize reads one BigSize from the reader whatever the length l of the
+// record is, so we check here that the value read takes up exactly the l bytes
+// of the record. Otherwise the next record of the stream would be parsed from
+// the wrong offset. ReadVarInt only accepts minimal encodings, hence the size
+// of the decoded value is the number of bytes that were read.
+func dBigSizeRecord(r io.Reader, val interface{}, buf *[8]byte,
+	l uint64) error {
+
+	if err := DBigSize(r, val, buf, l); err != nil {
+		return err
+	}
+
+	var size uint64
+	switch i := val.(type) {
+	case *uint32:
+		size = VarIntSize(uint64(*i))
+	case *uint64:
+		size = VarIntSize(*i)
+	}
+	if size != l {
+		return NewTypeForDecodingErr(val, "BigSize", l, size)
+	}
+
+	return nil
 }
 
 // constraintUint32Or64 is a type constraint for uint32 or uint64 types.
